@@ -82,6 +82,10 @@ CLAIMED = {
    technique="bounded-exhaustive enumeration of argument tuples (boundary sets for width, height, components, bit depth, codec parameter, buffer length; FrameInfo x parameter-object x frame-count lattice at codec level) through every package-level Encode and every registered Codec.Encode, in sandboxed worker processes",
    text="~900 k argument tuples: width, height in {-1,0,1,2,255,256,32767,32768,65535,65536,65537} x components {-1..5} x bit depth {-1,0,1,2,7,8,9,12,15,16,17,32} x quality/predictor/NEAR/levels/code-block boundary sets x buffer length {0,1,first row,need-1,need,need+1}; line-shaped requests get real buffers up to 65537 samples so every 16-bit size field boundary is crossed. Codec level: 14 syntaxes x FrameInfo lattice (incl. zeros and mismatches) x {nil, default, foreign implementation, out-of-range generic} parameters x {1, 2, 0 frames, empty frame, nil FrameInfo}. Oracle: no panic or process abort; a returned stream is accepted by the matching decoder with exactly the requested width, height, components, precision; package level: an unrepresentable request is not answered with a stream.",
    note="Full-size buffers are capped (2^14 bytes quick, 2^18 thorough; 2^20 for line-shaped requests); above the cap only short-buffer variants run. At codec level parameter objects that clamp out-of-range values are not judged (the statement's error requirement is applied to package-level functions, which have no clamping). One known finding (NEAR above MAXVAL/2 accepted)."),
+ "C18": dict(engine="E4 controlled scheduler + state digests + free-running race pass", design="§4 C18",
+   technique="stateless schedule exploration under a cooperative scheduler (DFS with iterative preemption bounding, deterministic replay of choice prefixes) over 2-3 concurrent Encode/Decode calls on one registry codec, with deep state digests of codec, shared parameters and all package-level variables, plus a separate free-running -race pass of the same bodies",
+   text="Every GetFrame/AddFrame/FrameCount/GetFrameInfo/GetParameter/SetParameter a codec makes is a scheduling point. For each of the 14 registered codecs x {EE, ED, DD} x {nil, per-thread, one shared default object, one shared generic object} every schedule with <= 2 preemptions (thorough: every schedule) and EED with bound 1 (thorough 2) is executed; each call's output frames and error must equal its solo result. Deep digests (reflect+unsafe over unexported fields) of the codec instance, the shared parameters object and every package-level variable of all 19 packages (accessors generated by a parser-only overlay) are compared before/after solo and interleaved calls: any persistent write is reported. The free-running pass runs 64 real concurrent calls per codec and parameter mode under the race detector at GOMAXPROCS 1, 2, 4, 16 and keys each report by the two innermost repository frames.",
+   note="Scheduling points are at callback granularity: accesses inside one frame's processing are not interleaved by the cooperative scheduler; shared state used within a frame is caught by the digests (persistent writes) and by the race pass (any unsynchronised conflicting access that occurs). Value-preserving writes are visible only to the race pass. The repository has no locks, goroutines or atomics, so there are no synchronisation operations to schedule at."),
 }
 NOT_APPLICABLE = {}
 
@@ -115,6 +119,8 @@ def main():
         },
         "engines": [
             {"name": "eng", "path": "/verif/harness/eng", "serves_properties": sorted(CLAIMED), "kind_free_text": "bounded-exhaustive explorer: odometer over explicit finite spaces, 16-way sharding, panic guard, 5x re-execution, replay files, known-finding matching, evidence writer"},
+            {"name": "sched", "path": "/verif/harness/eng/sched.go", "serves_properties": ["C18"], "kind_free_text": "cooperative scheduler + DFS over schedules with iterative preemption bounding and deterministic prefix replay"},
+            {"name": "e3 workers", "path": "/verif/harness/checks/c08.go", "serves_properties": ["C08", "C09", "C17"], "kind_free_text": "sandboxed worker processes (RLIMIT_AS, per-case mmap journal, watchdog, 5x solitary confirmation)"},
             {"name": "vcheck", "path": "/verif/harness/cmd/vcheck", "serves_properties": sorted(CLAIMED), "kind_free_text": "one binary, one sub-command per property; replay sub-command re-executes a recorded case without the explorer"},
         ],
         "checks": checks,
